@@ -2582,7 +2582,7 @@ def _process_trans_SIS_nonMarkov_(time, G, source, target, future_transmissions,
             Q.add(rec_time[target], _process_rec_SIS_, 
                     args = (target, times, recovery_times, S, I, status))
         for v in G.neighbors(target): #target plays role of source here
-            if trans_delays[v]:
+            if v in trans_delays and trans_delays[v]: #the dict only needs keys for the neighbors that receive a transmission
                 trans_times = sorted(time + td for td in trans_delays[v]) #when do transmissions happen (in time order)
                 if status[v] == 'I':  #only care about those after current infectious period
                     trans_times = [time for time in trans_times if time>rec_time[v]]
